@@ -2,10 +2,10 @@
 # usage: confirm_seed.sh <prop> <k>   confirms a sub-agent's change in a scratch worktree of /repo HEAD and,
 # if everything holds (suite passes with change, demo fails with change, demo passes without), keeps it under /verif/seeded/<prop>-<k>/
 set -u
-id=$1; k=$2
-src=/tmp/seed/out/$id
-out=/verif/seeded/$id-$k
-wt=/tmp/confirm-$id-$k
+id=$1; k=$2; SRC=${SRC:-/tmp/seed/out}; OUTK=${OUTK:-$k}
+src=$SRC/$id
+out=/verif/seeded/$id-$OUTK
+wt=/tmp/confirm-$id-$OUTK
 export GOFLAGS=-mod=mod GOPROXY=off GOSUMDB=off GOTOOLCHAIN=local
 mkdir -p $wt.tmp; export TMPDIR=$wt.tmp
 cleanup() { git -C /repo worktree remove --force $wt 2>/dev/null; rm -rf $wt $wt.tmp; }
@@ -20,7 +20,7 @@ if ! git apply $src/patch$k.diff 2>$wt.tmp/apply.log; then echo "$id-$k: patch d
 (cd $wt && go build ./... && go test -vet=off -count=1 ./... ) > $wt.tmp/suite1.log 2>&1; s1=$?
 (cd $wt/tests && go test -vet=off -count=1 ./... ) > $wt.tmp/suite2.log 2>&1; s2=$?
 run_demo; mut_rc=$?
-echo "$id-$k: demo_without_change_rc=$base_rc suite_root_rc=$s1 suite_tests_rc=$s2 demo_with_change_rc=$mut_rc"
+echo "$id-$OUTK: demo_without_change_rc=$base_rc suite_root_rc=$s1 suite_tests_rc=$s2 demo_with_change_rc=$mut_rc"
 if [ $base_rc -eq 0 ] && [ $s1 -eq 0 ] && [ $s2 -eq 0 ] && [ $mut_rc -ne 0 ]; then
   mkdir -p $out
   cp $src/patch$k.diff $out/patch.diff
